@@ -387,7 +387,7 @@ def check(prog, run):
         m = visitor.find_method(h)
         if m is None or len(m.params) < 2:
             continue
-        trs = {s for s, _, _, _ in c18.traversals(m, m.params[1])}
+        trs = {s for s, _, _, _ in c18.traversals(m, m.params[1], prog)}
         for cname in classes:
             if cname not in ("InlineFragment", "FragmentDefinition", "VariableDefinition", "OperationDefinition", "Field", "FragmentSpread"):
                 continue
